@@ -19,7 +19,9 @@ pub fn write(
     let mut thread_list = MemoryArrayWriter::<MDRawThreadName>::alloc_array(buffer, num_threads)?;
     dirent.location.data_size += thread_list.location().data_size;
 
-    for (idx, item) in dumper.threads.iter().enumerate() {
+    // The array only has slots for the named threads: index it by position among those.
+    let named_threads = dumper.threads.iter().filter(|t| t.name.is_some());
+    for (idx, item) in named_threads.enumerate() {
         if let Some(name) = &item.name {
             let pos = write_string_to_location(buffer, name)?;
             let thread = MDRawThreadName {
